@@ -2,11 +2,16 @@
 // C09 (only critical hook failures matter, exactly as documented).
 // Real Environment + real looplab/fsm (instrumented copy) + real callable.Call,
 // probe plugin, scripted transition bodies (package envsim).
+//
+// Scenario families (suffix): A/B/C/D = hooks of the first transition of [CONFIGURE], [CONFIGURE,START,STOP],
+// [CONFIGURE,RESET], [CONFIGURE(fails),CONFIGURE]; W = weights with several digits, unsigned weight 0;
+// X = await points at another weight than the trigger's; E / R = hooks of every transition of
+// [START, STOP(fails), GO_ERROR, RECOVER, EXIT] / [CONFIGURE, START, STOP]; K = calls failing by an error
+// returned from their function. Hook tasks: harness c09t; the core's own teardown: harness c08t.
 package main
 
 import (
 	"fmt"
-	"sort"
 	"strings"
 
 	"github.com/AliceO2Group/Control/core/environment"
@@ -19,6 +24,10 @@ import (
 type attempt struct {
 	event, src, dst string
 	bodyFail        bool
+	// srcs: every state the event is legal in (nil = src only); src is then the state the
+	// sequence reaches it in when nothing fails (it names the leave_ moment of the hook triggers),
+	// the reference uses the state the environment is really in
+	srcs []string
 }
 
 var edges = map[string][2]string{
@@ -26,11 +35,30 @@ var edges = map[string][2]string{
 	"START_ACTIVITY": {"CONFIGURED", "RUNNING"},
 	"STOP_ACTIVITY":  {"RUNNING", "CONFIGURED"},
 	"RESET":          {"CONFIGURED", "DEPLOYED"},
+	"RECOVER":        {"ERROR", "DEPLOYED"},
+	"DEPLOY":         {"STANDBY", "DEPLOYED"},
 }
 
 func mk(event string, fail bool) attempt {
 	e := edges[event]
-	return attempt{event, e[0], e[1], fail}
+	return attempt{event: event, src: e[0], dst: e[1], bodyFail: fail}
+}
+
+// mkFrom: an event that is legal in several states (GO_ERROR, EXIT), reached in state src.
+func mkFrom(event, src, dst string, srcs ...string) attempt {
+	return attempt{event: event, src: src, dst: dst, srcs: srcs}
+}
+
+func (a attempt) legalIn(state string) bool {
+	if a.srcs == nil {
+		return state == a.src
+	}
+	for _, s := range a.srcs {
+		if s == state {
+			return true
+		}
+	}
+	return false
 }
 
 // moment names of an attempt, index 0,1,3,4 (2 = the task transition itself)
@@ -73,34 +101,51 @@ func parseTrig(s string) (string, int) {
 // ---- hook-set generation ----------------------------------------------------------
 
 type hookCfg struct {
-	m     int // trigger moment of attempt 0: 0,1,3,4
-	w     int // -1,0,1
-	await int // 0 same, 1 next moment of the same transition (+0), 2 a moment of the next transition, 3 never
+	a int // attempt of the sequence whose moments the trigger refers to
+	m int // trigger moment of that attempt: 0,1,3,4
+	w int // weight
+	// await: 0 same, 1 next moment of the same transition (+0), 2 a moment of the next transition, 3 never,
+	// 4 the next weight of the same moment (w+1), 5 the next moment of the same transition at weight -1
+	await int
 	crit  bool
 	fail  bool
+	plain bool // a weight of 0 is written without "+0" (the form the handbook uses: `after_RESET`)
+	kind  int  // how a failing call fails: 0 = __call_error in its var stack, 1 = the function returns an error
+}
+
+// spell writes a trigger / await expression.
+func spell(name string, w int, plain bool) string {
+	if w == 0 && plain {
+		return name
+	}
+	return fmt.Sprintf("%s%+d", name, w)
 }
 
 func (c hookCfg) build(id string, seq []attempt) envsim.Hook {
-	a0 := seq[0]
-	trig := fmt.Sprintf("%s%+d", a0.name(c.m), c.w)
+	a0 := seq[c.a]
+	trig := spell(a0.name(c.m), c.w, c.plain)
+	nm := c.m + 1
+	if nm == 2 {
+		nm = 3
+	}
 	aw := ""
 	switch c.await {
 	case 1:
-		nm := c.m + 1
-		if nm == 2 {
-			nm = 3
-		}
-		aw = a0.name(nm) + "+0"
+		aw = spell(a0.name(nm), 0, c.plain)
 	case 2:
-		if len(seq) > 1 {
-			aw = seq[1].name(0) + "+0"
+		if len(seq) > c.a+1 {
+			aw = spell(seq[c.a+1].name(0), 0, c.plain)
 		} else {
 			aw = "before_NEVERHAPPENS+0"
 		}
 	case 3:
 		aw = "after_NEVERHAPPENS+0"
+	case 4:
+		aw = spell(a0.name(c.m), c.w+1, c.plain)
+	case 5:
+		aw = a0.name(nm) + "-1"
 	}
-	return envsim.Hook{ID: id, Trigger: trig, Await: aw, Critical: c.crit, Fail: c.fail}
+	return envsim.Hook{ID: id, Trigger: trig, Await: aw, Critical: c.crit, Fail: c.fail, ErrKind: c.kind}
 }
 
 var moments = []int{0, 1, 3, 4}
@@ -140,6 +185,77 @@ func failCfgs() (out []hookCfg) {
 	return
 }
 
+// weightCfgs: weights far from zero and with several digits (their textual order differs from the
+// numeric one) and weight 0 in the handbook's spelling without "+0".
+func weightCfgs() (out []hookCfg) {
+	for _, m := range moments {
+		for _, w := range []int{-10, -2, 0, 2, 10} {
+			for _, aw := range []int{0, 1} {
+				if aw == 1 && m == 4 {
+					continue
+				}
+				out = append(out, hookCfg{m: m, w: w, await: aw, crit: true, plain: true})
+			}
+		}
+	}
+	return
+}
+
+// awaitCfgs: await points that differ from the trigger in the weight - a later weight of the trigger's
+// own moment (in the same pass of the moment: -2 > -1, 0 > +1, +1 > +2; across the built-in work: -1 > +0)
+// and a negative weight of the next moment.
+func awaitCfgs(modes []int) (out []hookCfg) {
+	for _, m := range moments {
+		for _, w := range []int{-2, -1, 0, 1} {
+			for _, aw := range modes {
+				if aw == 5 && m == 4 {
+					continue
+				}
+				out = append(out, hookCfg{m: m, w: w, await: aw, crit: true})
+			}
+		}
+	}
+	return
+}
+
+// seqCfgs: hooks triggered at any moment of ANY transition of the sequence (the callbacks have code of their
+// own for START_ACTIVITY, STOP_ACTIVITY, GO_ERROR and for leaving RUNNING between the two passes of a moment).
+func seqCfgs(seq []attempt, awaits []int, failing bool) (out []hookCfg) {
+	for a := range seq {
+		for _, m := range moments {
+			for _, w := range weights {
+				for _, aw := range awaits {
+					if aw == 1 && m == 4 {
+						continue
+					}
+					if !failing {
+						out = append(out, hookCfg{a: a, m: m, w: w, await: aw, crit: true})
+						continue
+					}
+					for _, crit := range []bool{true, false} {
+						for _, fail := range []bool{true, false} {
+							out = append(out, hookCfg{a: a, m: m, w: w, await: aw, crit: crit, fail: fail})
+						}
+					}
+				}
+			}
+		}
+	}
+	return
+}
+
+// kindCfgs: the failing call fails by returning an error from its function (template execution error)
+// instead of leaving __call_error in its var stack.
+func kindCfgs() (out []hookCfg) {
+	for _, c := range failCfgs() {
+		if c.fail {
+			c.kind = 1
+		}
+		out = append(out, c)
+	}
+	return
+}
+
 // chooseHooks enumerates multisets of n configs (free choices, simplest first).
 func chooseHooks(cfgs []hookCfg, n int, seq []attempt) []envsim.Hook {
 	var hooks []envsim.Hook
@@ -149,14 +265,13 @@ func chooseHooks(cfgs []hookCfg, n int, seq []attempt) []envsim.Hook {
 		prev = k
 		hooks = append(hooks, cfgs[k].build(fmt.Sprintf("h%d", i), seq))
 	}
-	// slot gates: calls with identical trigger and await==trigger must be started together
+	// slot gates: calls with the same trigger point must be started together, wherever they are awaited
+	// (a gated probe returns only when every call of its slot has started)
 	for i := range hooks {
-		if hooks[i].Await != "" {
-			continue
-		}
 		var slot []string
+		ni, wi := parseTrig(hooks[i].Trigger)
 		for j := range hooks {
-			if hooks[j].Await == "" && hooks[j].Trigger == hooks[i].Trigger {
+			if nj, wj := parseTrig(hooks[j].Trigger); nj == ni && wj == wi {
 				slot = append(slot, hooks[j].ID)
 			}
 		}
@@ -187,17 +302,15 @@ type expectation struct {
 	stateEnd []string  // per attempt: state after it
 	bodyRun  []bool
 	errName  []string // message of a failing critical hook the error must mention ("" = any)
+	// errAll: per attempt the messages of ALL critical hooks that failed at the one failing point of the attempt
+	// (they fail at the same point, so they have to be reported together)
+	errAll [][]string
 	ambiguous bool    // statement leaves open whether later weights of an enter_/after_ moment run after a critical failure
 }
 
 // simulate the documented semantics.
 func expect(hooks []envsim.Hook, seq []attempt) expectation {
 	var ex expectation
-	type pend struct {
-		i      int
-		name   string
-		weight int
-	}
 	var pending []int // indexes into ex.insts awaiting
 	state := seq[0].src
 	for ai, a := range seq {
@@ -206,15 +319,19 @@ func expect(hooks []envsim.Hook, seq []attempt) expectation {
 		errName := ""
 		bodyRun := false
 		cancelled := false
-		if state != a.src {
-			// illegal request: nothing runs (not produced by these scenarios)
+		if !a.legalIn(state) {
+			// illegal request: nothing runs
 			ex.reached = append(ex.reached, reached)
 			ex.errWant = append(ex.errWant, true)
 			ex.stateEnd = append(ex.stateEnd, state)
 			ex.bodyRun = append(ex.bodyRun, false)
 			ex.errName = append(ex.errName, "")
+			ex.errAll = append(ex.errAll, nil)
 			continue
 		}
+		a.src = state // the moment is named after the state that is really left
+		var errAll []string
+		failPoints := 0
 		for _, m := range []int{0, 1, 2, 3, 4} {
 			if cancelled {
 				break
@@ -230,28 +347,31 @@ func expect(hooks []envsim.Hook, seq []attempt) expectation {
 			}
 			reached[m] = true
 			name := a.name(m)
-			// weights present at this moment: triggers and pending awaits
-			ws := map[int]bool{}
-			for _, h := range hooks {
-				tn, tw := parseTrig(h.Trigger)
-				if tn == name {
-					ws[tw] = true
-				}
-			}
-			for _, pi := range pending {
-				in := ex.insts[pi]
-				an, aw := parseTrig(in.awName)
-				if an == name {
-					ws[aw] = true
-				}
-			}
-			var wl []int
-			for w := range ws {
-				wl = append(wl, w)
-			}
-			sort.Ints(wl)
 			stopNeg, stopPos := false, false
-			for _, w := range wl {
+			first, last := true, 0
+			for {
+				// the next point of this moment: the smallest weight not yet passed at which a hook is triggered or
+				// a started call (also one started earlier in this very moment) is awaited
+				have, w := false, 0
+				cand := func(c int) {
+					if (first || c > last) && (!have || c < w) {
+						have, w = true, c
+					}
+				}
+				for _, h := range hooks {
+					if tn, tw := parseTrig(h.Trigger); tn == name {
+						cand(tw)
+					}
+				}
+				for _, pi := range pending {
+					if an, aw := parseTrig(ex.insts[pi].awName); an == name {
+						cand(aw)
+					}
+				}
+				if !have {
+					break
+				}
+				first, last = false, w
 				if (w < 0 && stopNeg) || (w >= 0 && (stopPos || (stopNeg && m <= 1))) {
 					continue
 				}
@@ -292,11 +412,14 @@ func expect(hooks []envsim.Hook, seq []attempt) expectation {
 				pending = still
 				if critFail {
 					errWant = true
-					if errName == "" && m <= 1 {
-						for _, in := range ex.insts {
-							if in.hasA && in.pa == p && in.fail && in.crit {
+					failPoints++
+					for _, in := range ex.insts {
+						if in.hasA && in.pa == p && in.fail && in.crit {
+							if errName == "" && m <= 1 {
 								errName = "probe " + in.hook + " failed"
-								break
+							}
+							if failPoints == 1 {
+								errAll = append(errAll, "probe "+in.hook+" failed")
 							}
 						}
 					}
@@ -327,6 +450,10 @@ func expect(hooks []envsim.Hook, seq []attempt) expectation {
 		ex.stateEnd = append(ex.stateEnd, state)
 		ex.bodyRun = append(ex.bodyRun, bodyRun && (reached[2]))
 		ex.errName = append(ex.errName, errName)
+		if failPoints != 1 {
+			errAll = nil // failures at several points of one attempt (enter_ and after_): which of them the caller sees is left open
+		}
+		ex.errAll = append(ex.errAll, errAll)
 	}
 	return ex
 }
@@ -346,6 +473,7 @@ func (s scen) make(q, t vrt.Bounds) *vrt.Scenario {
 	var w *envsim.World
 	var hooks []envsim.Hook
 	var rets []error
+	pendBefore := 0
 	body := func() {
 		hooks = chooseHooks(s.cfgs, s.n, s.seq)
 		w = envsim.New(hooks, s.seq[0].src)
@@ -354,6 +482,7 @@ func (s scen) make(q, t vrt.Bounds) *vrt.Scenario {
 			rets = append(rets, w.Transition(a.event, fmt.Sprintf("%d", i), a.bodyFail))
 		}
 		// teardown cancels whatever was never awaited
+		pendBefore = w.Env.PendingAwaitForVerif()
 		environment.CancelPendingForVerif(w.Env)
 		vrt.Quiesce("settle")
 		var desc []string
@@ -396,6 +525,19 @@ func (s scen) make(q, t vrt.Bounds) *vrt.Scenario {
 			if ex.errWant[ai] && rets[ai] != nil && ex.errName[ai] != "" && !strings.Contains(rets[ai].Error(), ex.errName[ai]) {
 				fail("error-does-not-name-failure", "attempt %d: error %q does not name %s", ai, rets[ai], ex.errName[ai])
 			}
+			if all := ex.errAll[ai]; len(all) > 1 && rets[ai] != nil {
+				// several critical hooks failed at the same point: reported together - every one of them is named,
+				// or at least the caller is told how many failed
+				named := 0
+				for _, n := range all {
+					if strings.Contains(rets[ai].Error(), n) {
+						named++
+					}
+				}
+				if named < len(all) && !strings.Contains(rets[ai].Error(), fmt.Sprintf("%d ", len(all))) {
+					fail(fmt.Sprintf("simultaneous-failures-not-reported-together:%d-of-%d-named", named, len(all)), "attempt %d: error %q, failed at the same point: %v", ai, rets[ai], all)
+				}
+			}
 			nb := w.Count("body", tag)
 			want := 0
 			if ex.bodyRun[ai] {
@@ -419,6 +561,20 @@ func (s scen) make(q, t vrt.Bounds) *vrt.Scenario {
 				fail(fmt.Sprintf("hook-started-%d-times-want-%d:%s", got, nInst[h.ID], tn), "hook %s", h.ID)
 				return
 			}
+		}
+		// an await point at a later weight of the trigger's own moment and pass (both negative or both
+		// non-negative) at which no hook is triggered and nothing else is awaited: gets a clause of its own
+		laterWeight := func(in inst) string {
+			if !in.hasA || in.pa.a != in.ps.a || in.pa.m != in.ps.m || in.pa.w <= in.ps.w || (in.pa.w < 0) != (in.ps.w < 0) {
+				return ""
+			}
+			for _, o := range ex.insts {
+				samePass := o.ps.a == in.ps.a && o.ps.m == in.ps.m && (o.ps.w < 0) == (in.ps.w < 0)
+				if o.ps == in.pa || (o.hasA && o.pa == in.pa && !samePass) {
+					return "" // a hook is triggered at that point, or a call started before this pass is awaited there
+				}
+			}
+			return ":await-at-a-later-weight-of-the-trigger-pass-where-nothing-is-triggered"
 		}
 		idxS := func(in inst) int { return w.SpawnIndex(in.hook, in.n) }
 		idxE := func(in inst) int { _, _, e := w.Instance(in.hook, in.n); return e }
@@ -449,7 +605,7 @@ func (s scen) make(q, t vrt.Bounds) *vrt.Scenario {
 				// await: b is awaited strictly before a's start point => b ended before a started
 				if b.hasA && b.pa.less(a.ps) {
 					if e := idxE(b); e < 0 || e > ia {
-						fail("moved-past-await-point", "%s started at %v before %s (await %v) had returned", a.hook, a.ps, b.hook, b.pa)
+						fail("moved-past-await-point"+laterWeight(b), "%s started at %v before %s (await %v) had returned", a.hook, a.ps, b.hook, b.pa)
 					}
 				}
 			}
@@ -463,11 +619,11 @@ func (s scen) make(q, t vrt.Bounds) *vrt.Scenario {
 				// task transition / transition return that lie after the await point come after end
 				if a.pa.m < 2 {
 					if b := w.Index("body", fmt.Sprint(a.pa.a), 0); b >= 0 && b < e {
-						fail("moved-past-await-point:task-transition", "task transition of attempt %d ran before %s (await %v) returned", a.pa.a, a.hook, a.pa)
+						fail("moved-past-await-point:task-transition"+laterWeight(a), "task transition of attempt %d ran before %s (await %v) returned", a.pa.a, a.hook, a.pa)
 					}
 				}
 				if r := w.Index("ret", fmt.Sprint(a.pa.a), 0); r < e {
-					fail("moved-past-await-point:return", "attempt %d returned before %s (await %v) returned", a.pa.a, a.hook, a.pa)
+					fail("moved-past-await-point:return"+laterWeight(a), "attempt %d returned before %s (await %v) returned", a.pa.a, a.hook, a.pa)
 				}
 			}
 		}
@@ -485,11 +641,19 @@ func (s scen) make(q, t vrt.Bounds) *vrt.Scenario {
 			}
 			fail(cl, "blocked call goroutines at the end: %v", l)
 		}
-		if n := w.Env.PendingAwaitForVerif(); n > 0 {
-			// pending entries whose await point was reached must have been cleared
-			for _, in := range ex.insts {
-				_ = in
+		// collected exactly once: when the last transition has returned, the calls still filed as "started, not yet
+		// collected" are exactly the ones whose await point was not reached
+		wantPend, lw := 0, ""
+		for _, in := range ex.insts {
+			if !in.hasA {
+				wantPend++
 			}
+			if s := laterWeight(in); s != "" {
+				lw = s
+			}
+		}
+		if pendBefore != wantPend {
+			fail(fmt.Sprintf("calls-filed-as-not-yet-collected:%d-want-%d%s", pendBefore, wantPend, lw), "after the last transition")
 		}
 		return
 	}
@@ -516,6 +680,10 @@ func main() {
 	seqB := []attempt{mk("CONFIGURE", false), mk("START_ACTIVITY", false), mk("STOP_ACTIVITY", false)}
 	seqC := []attempt{mk("CONFIGURE", false), mk("RESET", false)}
 	seqD := []attempt{mk("CONFIGURE", true), mk("CONFIGURE", false)}
+	// a run and its ends: START, a STOP whose task transition fails, GO_ERROR out of RUNNING, RECOVER, EXIT
+	anyLive := []string{"STANDBY", "DEPLOYED", "CONFIGURED", "RUNNING"}
+	seqE := []attempt{mk("START_ACTIVITY", false), mk("STOP_ACTIVITY", true), mkFrom("GO_ERROR", "RUNNING", "ERROR", anyLive...),
+		mk("RECOVER", false), mkFrom("EXIT", "DEPLOYED", "DONE", "STANDBY", "DEPLOYED", "CONFIGURED")}
 	oc, fc := orderCfgs(), failCfgs()
 	b := func(d, s int) vrt.Bounds { return vrt.Bounds{Dev: d, Seconds: s} }
 	vrt.Main([]*vrt.Scenario{
@@ -526,9 +694,23 @@ func main() {
 		scen{"order1-D", "C08", seqD, 1, oc, false}.make(b(1, 60), b(2, 300)),
 		scen{"order2-D", "C08", seqD, 2, oc, false}.make(b(0, 100), b(1, 900)),
 		scen{"order3-A", "C08", seqA, 3, oc, false}.make(b(0, 150), b(1, 1500)),
+		// weights with several digits and unsigned weight 0; await points at another weight than the trigger's;
+		// hooks of every transition of a run
+		scen{"order2-W", "C08", seqA, 2, weightCfgs(), false}.make(b(1, 100), b(2, 900)),
+		scen{"order1-X", "C08", seqA, 1, awaitCfgs([]int{4, 5}), false}.make(b(2, 60), b(3, 300)),
+		scen{"order2-X", "C08", seqA, 2, awaitCfgs([]int{0, 4, 5}), false}.make(b(0, 100), b(1, 900)),
+		scen{"order1-E", "C08", seqE, 1, seqCfgs(seqE, []int{0, 1, 2, 3}, false), false}.make(b(1, 100), b(2, 900)),
+		scen{"order2-E", "C08", seqE, 2, seqCfgs(seqE, []int{0, 2}, false), false}.make(b(0, 150), b(1, 1500)),
+		scen{"order1-R", "C08", seqB, 1, seqCfgs(seqB, []int{0, 1, 2, 3}, false), false}.make(b(1, 100), b(2, 900)),
 		scen{"fail1-A", "C09", seqA, 1, fc, true}.make(b(2, 60), b(3, 300)),
 		scen{"fail2-A", "C09", seqA, 2, fc, true}.make(b(1, 100), b(2, 900)),
 		scen{"fail2-B", "C09", seqB, 2, fc, true}.make(b(0, 100), b(1, 900)),
 		scen{"fail3-A", "C09", seqA, 3, fc, true}.make(b(0, 100), b(0, 1500)),
+		// the failing call returns an error from its function; failing hooks of every transition of a run
+		scen{"fail1-K", "C09", seqA, 1, kindCfgs(), true}.make(b(1, 60), b(2, 300)),
+		scen{"fail2-K", "C09", seqA, 2, kindCfgs(), true}.make(b(0, 100), b(1, 900)),
+		scen{"fail1-E", "C09", seqE, 1, seqCfgs(seqE, []int{0, 1, 2}, true), true}.make(b(1, 100), b(2, 900)),
+		scen{"fail2-E", "C09", seqE, 2, seqCfgs(seqE, []int{0}, true), true}.make(b(0, 150), b(1, 1500)),
+		scen{"fail1-R", "C09", seqB, 1, seqCfgs(seqB, []int{0, 1, 2}, true), true}.make(b(1, 100), b(2, 900)),
 	})
 }
